@@ -233,6 +233,9 @@ func genBase(t *rapid.T, c *Case) {
 	c.Accept = rapid.Bool().Draw(t, "accept")
 	c.ReverseY = rapid.IntRange(0, 3).Draw(t, "reverse_y") == 0
 	c.CtxCancel = !c.Accept && rapid.Bool().Draw(t, "ctx_cancel")
+	if !c.Accept && rapid.IntRange(0, 2).Draw(t, "again") == 0 {
+		c.Again, c.AgainSeed = true, rapid.Uint64().Draw(t, "again_seed")
+	}
 	c.MaxFrame = rapid.IntRange(1, 7).Draw(t, "maxframe")
 	c.NulTerm = rapid.Bool().Draw(t, "nulterm")
 	if !c.Accept {
